@@ -368,9 +368,7 @@ req0_recv_cb(void *arg)
 	ctx->request_id = 0;
 	if (ctx->req_msg != NULL) {
 		// Only free msg if we originally cloned it (for retries)
-		if (ctx->retry > 0) {
-			nni_msg_free(ctx->req_msg);
-		}
+		nni_msg_free(ctx->req_msg);
 		ctx->req_msg = NULL;
 	}
 
@@ -546,9 +544,7 @@ req0_run_send_queue(req0_sock *s, nni_aio_completions *sent_list)
 		// unique.  We can freely clone it.
 		// But only do so if we need to hang onto it (for potential
 		// retries)
-		if (ctx->retry > 0) {
-			nni_msg_clone(ctx->req_msg);
-		}
+		nni_msg_clone(ctx->req_msg);
 		nni_aio_set_msg(&p->aio_send, ctx->req_msg);
 		nni_pipe_send(p->pipe, &p->aio_send);
 	}
@@ -569,9 +565,7 @@ req0_ctx_reset(req0_ctx *ctx)
 	}
 	if (ctx->req_msg != NULL) {
 		// Only free msg if we originally cloned it (for retries)
-		if (ctx->retry > 0) {
-			nni_msg_free(ctx->req_msg);
-		}
+		nni_msg_free(ctx->req_msg);
 		ctx->req_msg = NULL;
 	}
 	if (ctx->rep_msg != NULL) {
